@@ -519,6 +519,17 @@ impl Exec {
             let (spur, pick) = {
                 let mut w = lock(&self.world);
                 w.step += 1;
+                {
+                    // abstract state of the simulated system at this scheduling step
+                    let cls = |n: usize| -> u64 { if n == 0 { 0 } else if n < 8 { 1 } else if n < 64 { 2 } else { 3 } };
+                    let in_handler = w.handler_log.iter().any(|h| !h.finished);
+                    let closing = !in_handler && w.handler_log.len() > w.end_requests;
+                    let h = fnv_u64(evs.len() as u64, fnv_u64(u64::from(w.read_blocked), fnv_u64(u64::from(w.write_blocked),
+                        fnv_u64(cls(w.avail - w.read_pos.min(w.avail)), fnv_u64(cls(w.sent - w.avail), fnv_u64(u64::from(w.gate_open()),
+                        fnv_u64(u64::from(in_handler), fnv_u64(u64::from(closing), fnv_u64(cls(w.log.len() - w.decoded_upto),
+                        fnv_u64(u64::from(w.read_waker.is_some()), fnv_u64(u64::from(w.write_waker.is_some()), fnv_u64(u64::from(w.shutdown_requested_at_step.is_some()), 0x53))))))))))));
+                    w.cx.state(h);
+                }
                 if w.step > self.step_cap { return RunEnd::StepCap; }
                 let sp = w.knobs.spurious_polls;
                 let spur = sp > 0 && w.cx.ch.chance(sp, 64);
